@@ -1,76 +1,43 @@
-(* C09 -- auxiliary lemmas: tokenising padded columns, insertion-ordered dicts, column sums *)
-From PV Require Import C09.Spec.
+(* C09 -- auxiliary lemmas: tokenising padded columns (str semantics), decoding printed lines,
+   insertion-ordered dicts, column sums *)
+From PV Require Import C09.Spec C09.TextLemmas.
 
-(* ------------------------------------------------ split_ws and strip *)
-Lemma split_ws_cons2 a d r :
-  is_ws a = false ->
-  split_ws (a :: d :: r) =
-  if is_ws d then [a] :: split_ws (d :: r)
-  else match split_ws (d :: r) with t :: ts => (a :: t) :: ts | [] => [[a]] end.
-Proof. intros H. remember (d :: r) as w eqn:Hw. cbn [split_ws]. rewrite H. subst w. reflexivity. Qed.
+(* ------------------------------------------------ str.split / str.strip on padded columns *)
+Definition ustarts (l : text) : bool := gstarts is_uws l.
 
-Lemma split_ws_snoc_ws x c : is_ws c = true -> split_ws (x ++ [c]) = split_ws x.
-Proof.
-  intros Hc. induction x as [|a x IH].
-  - cbn [app split_ws]. now rewrite Hc.
-  - change ((a :: x) ++ [c]) with (a :: (x ++ [c])).
-    destruct (is_ws a) eqn:Ha.
-    + rewrite !split_ws_leading by exact Ha. exact IH.
-    + destruct x as [|d x'].
-      * cbn [app]. rewrite split_ws_cons2 by exact Ha. rewrite Hc.
-        rewrite split_ws_leading by exact Hc. cbn [split_ws]. now rewrite Ha.
-      * change ((d :: x') ++ [c]) with (d :: (x' ++ [c])).
-        rewrite !split_ws_cons2 by exact Ha.
-        change (d :: (x' ++ [c])) with ((d :: x') ++ [c]). now rewrite IH.
-Qed.
+Lemma uws_32 : is_uws 32 = true. Proof. reflexivity. Qed.
+Lemma uws_10 : is_uws 10 = true. Proof. reflexivity. Qed.
 
-Lemma split_ws_lstrip l : split_ws (lstrip l) = split_ws l.
-Proof.
-  induction l as [|a l IH]; [reflexivity|]. cbn [lstrip].
-  destruct (is_ws a) eqn:Ha; [|reflexivity]. now rewrite split_ws_leading.
-Qed.
-
-Lemma split_ws_rstrip l : split_ws (rstrip l) = split_ws l.
-Proof.
-  induction l as [|c x IH] using rev_ind; [reflexivity|].
-  rewrite rstrip_snoc. destruct (is_ws c) eqn:Hc; [|reflexivity].
-  now rewrite IH, split_ws_snoc_ws.
-Qed.
-
-Lemma split_ws_strip l : split_ws (strip l) = split_ws l.
-Proof. unfold strip. now rewrite split_ws_rstrip, split_ws_lstrip. Qed.
-
-Definition starts_ws (l : bytes) : bool := match l with s :: _ => is_ws s | [] => false end.
-
-Lemma split_ws_tok_app t l :
-  tok_ok t = true -> starts_ws l = true -> split_ws (t ++ l) = t :: split_ws l.
-Proof.
-  intros Ht Hl. destruct l as [|s rest]; [discriminate|]. cbn [starts_ws] in Hl.
-  apply tok_ok_spec in Ht as [Hne Hnw].
-  rewrite split_ws_token_sep by assumption. now rewrite split_ws_leading.
-Qed.
-
-Lemma split_ws_repeat n l : split_ws (repeat 32 n ++ l) = split_ws l.
-Proof. induction n as [|n IH]; [reflexivity|]. cbn [repeat app]. now rewrite split_ws_leading. Qed.
+Lemma usplit_strip l : usplit (ustrip l) = usplit l.
+Proof. exact (gsplit_strip is_uws l). Qed.
+Lemma usplit_leading s rest : is_uws s = true -> usplit (s :: rest) = usplit rest.
+Proof. exact (gsplit_leading is_uws s rest). Qed.
+Lemma usplit_tok_app t l : utok_ok t = true -> ustarts l = true -> usplit (t ++ l) = t :: usplit l.
+Proof. exact (gsplit_tok_app is_uws t l). Qed.
+Lemma usplit_repeat n l : usplit (repeat 32 n ++ l) = usplit l.
+Proof. exact (gsplit_repeat is_uws 32 n l uws_32). Qed.
+Lemma ustrip_pad n t : uends_ok t = true -> ustrip (repeat 32 n ++ t) = t.
+Proof. exact (gstrip_pad is_uws 32 n t uws_32). Qed.
+Lemma utok_ends t : utok_ok t = true -> uends_ok t = true.
+Proof. exact (gtok_ends is_uws t). Qed.
+Lemma utok_ok_spec t : utok_ok t = true <-> t <> [] /\ gno_ws is_uws t = true.
+Proof. exact (gtok_ok_spec is_uws t). Qed.
 
 Lemma sp_items_cons p r : sp_items (p :: r) = repeat 32 (S (fst p)) ++ snd p ++ sp_items r.
 Proof. unfold sp_items. cbn [map concat]. unfold sp_item at 1. now rewrite <- app_assoc. Qed.
 
-Lemma sp_items_app a b : sp_items (a ++ b) = sp_items a ++ sp_items b.
-Proof. unfold sp_items. now rewrite map_app, concat_app. Qed.
-
-Lemma starts_ws_sp_items items tail :
-  starts_ws tail = true -> starts_ws (sp_items items ++ tail) = true.
+Lemma ustarts_sp_items items tail :
+  ustarts tail = true -> ustarts (sp_items items ++ tail) = true.
 Proof. intros H. destruct items as [|p r]; [exact H|]. rewrite sp_items_cons. reflexivity. Qed.
 
-Lemma split_ws_sp_items items tail :
-  forallb tok_ok (map snd items) = true -> starts_ws tail = true ->
-  split_ws (sp_items items ++ tail) = map snd items ++ split_ws tail.
+Lemma usplit_sp_items items tail :
+  forallb utok_ok (map snd items) = true -> ustarts tail = true ->
+  usplit (sp_items items ++ tail) = map snd items ++ usplit tail.
 Proof.
   intros H Ht. induction items as [|p r IH]; [reflexivity|].
   cbn [map forallb] in H. apply andb_true_iff in H as [Hp Hr].
-  rewrite sp_items_cons, <- !app_assoc, split_ws_repeat.
-  rewrite split_ws_tok_app by (auto using starts_ws_sp_items).
+  rewrite sp_items_cons, <- !app_assoc, usplit_repeat.
+  rewrite usplit_tok_app by (auto using ustarts_sp_items).
   cbn [map app]. now rewrite IH.
 Qed.
 
@@ -78,16 +45,6 @@ Lemma map_snd_cols l : map snd (cols l) = map snd l.
 Proof. unfold cols. rewrite map_map. reflexivity. Qed.
 Lemma map_snd_zero_w l : map snd (zero_w l) = l.
 Proof. unfold zero_w. rewrite map_map. cbn [snd]. apply map_id. Qed.
-
-Lemma lstrip_repeat n t : lstrip (repeat 32 n ++ t) = lstrip t.
-Proof. induction n as [|n IH]; [reflexivity|]. cbn [repeat app lstrip]. exact IH. Qed.
-
-Lemma strip_pad n t : tok_ok t = true -> strip (repeat 32 n ++ t) = t.
-Proof.
-  intros H. apply tok_ok_spec in H as [Hne Hnw]. unfold strip.
-  rewrite lstrip_repeat, (lstrip_no_ws t Hnw).
-  exact (rstrip_no_ws_tail [] t Hne Hnw).
-Qed.
 
 (* ------------------------------------------------ character classes *)
 Lemma forallb_imp {A} (P Q : A -> bool) l :
@@ -109,8 +66,12 @@ Proof.
   apply andb_true_iff. split; [exact Hp|exact (IH Hr)].
 Qed.
 
-Lemma forallb_pad P w t : P 32 = true -> forallb P t = true -> forallb P (pad w t) = true.
-Proof. intros H32 Ht. unfold pad. rewrite forallb_app, forallb_repeat by exact H32. now rewrite Ht. Qed.
+Lemma forallb_concat {A} (P : A -> bool) ls :
+  (forall l, In l ls -> forallb P l = true) -> forallb P (concat ls) = true.
+Proof.
+  induction ls as [|l ls IH]; intros H; [reflexivity|]. cbn [concat]. rewrite forallb_app.
+  rewrite (H l (or_introl eq_refl)). apply IH. intros x Hx. apply H. now right.
+Qed.
 
 Lemma contains_false_forallb b l : forallb (fun c => negb (b =? c)) l = true -> contains b l = false.
 Proof.
@@ -118,37 +79,39 @@ Proof.
   apply andb_true_iff in H as [H1 H2]. rewrite contains_cons, (IH H2).
   apply negb_true_iff in H1. now rewrite H1.
 Qed.
+Lemma contains_repeat b x n : (b =? x) = false -> contains b (repeat x n) = false.
+Proof. intros H. induction n as [|n IH]; [reflexivity|]. cbn [repeat]. now rewrite contains_cons, H, IH. Qed.
+Lemma contains_concat b ls : (forall l, In l ls -> contains b l = false) -> contains b (concat ls) = false.
+Proof.
+  induction ls as [|l ls IH]; intros H; [reflexivity|]. cbn [concat]. rewrite contains_app.
+  rewrite (H l (or_introl eq_refl)). apply IH. intros x Hx. apply H. now right.
+Qed.
 
 Lemma is_dec_inv t : is_dec t = true -> t <> [] /\ forallb is_digit t = true.
 Proof. destruct t; [discriminate|]. intros H. split; [congruence|exact H]. Qed.
-Lemma name_ok_inv t : name_ok t = true -> t <> [] /\ forallb is_graph t = true.
-Proof. destruct t; [discriminate|]. intros H. split; [congruence|exact H]. Qed.
 
-Lemma digit_graph c : is_digit c = true -> is_graph c = true.
-Proof. unfold is_digit, is_graph. lia. Qed.
-Lemma graph_not_ws c : is_graph c = true -> negb (is_ws c) = true.
-Proof. unfold is_graph, is_ws. lia. Qed.
+Lemma digit_not_uws c : is_digit c = true -> negb (is_uws c) = true.
+Proof. unfold is_digit, is_uws. lia. Qed.
 
-Lemma is_dec_tok_ok t : is_dec t = true -> tok_ok t = true.
-Proof. intros H. apply tok_ok_spec. now apply is_dec_tok. Qed.
-Lemma name_tok_ok t : name_ok t = true -> tok_ok t = true.
+Lemma is_dec_utok t : is_dec t = true -> utok_ok t = true.
 Proof.
-  intros H. apply name_ok_inv in H as [Hne Hg]. apply tok_ok_spec. split; [exact Hne|].
-  unfold no_ws. exact (forallb_imp _ _ _ graph_not_ws Hg).
+  intros H. apply is_dec_inv in H as [Hne Hd]. apply utok_ok_spec. split; [exact Hne|].
+  unfold gno_ws. exact (forallb_imp _ _ _ digit_not_uws Hd).
 Qed.
 Lemma dec_all P t : (forall c, is_digit c = true -> P c = true) -> is_dec t = true -> forallb P t = true.
 Proof. intros HP H. apply is_dec_inv in H as [_ H]. exact (forallb_imp _ _ _ HP H). Qed.
 Lemma decs_all P l :
   (forall c, is_digit c = true -> P c = true) -> forallb is_dec l = true -> forallb (forallb P) l = true.
 Proof. intros HP. apply forallb_imp. intros t. now apply dec_all. Qed.
-Lemma decs_tok_ok l : forallb is_dec l = true -> forallb tok_ok l = true.
-Proof. apply forallb_imp. exact is_dec_tok_ok. Qed.
+Lemma decs_utok l : forallb is_dec l = true -> forallb utok_ok l = true.
+Proof. apply forallb_imp. exact is_dec_utok. Qed.
 
-Lemma mapM_py_int_dec l : forallb is_dec l = true -> mapM py_int l = Val (map dec_val l).
+(* a token has no blank, hence no line break *)
+Lemma utok_contains b t : is_uws b = true -> utok_ok t = true -> contains b t = false.
 Proof.
-  induction l as [|t l IH]; [reflexivity|]. cbn [forallb]. intros H.
-  apply andb_true_iff in H as [Ht Hl]. cbn [mapM map]. unfold py_int at 1.
-  rewrite (parse_int_dec _ Ht). cbn [of_option obind]. now rewrite (IH Hl).
+  intros Hb H. apply utok_ok_spec in H as [_ H]. unfold gno_ws in H.
+  apply contains_false_forallb. refine (forallb_imp _ _ _ _ H). intros c Hc.
+  destruct (Z.eqb_spec b c) as [->|]; [|reflexivity]. now rewrite Hb in Hc.
 Qed.
 
 (* ------------------------------------------------ slicing around a separator *)
@@ -158,7 +121,7 @@ Lemma skipn_app_len {A} (pre : list A) x rest : skipn (S (length pre)) (pre ++ x
 Proof. induction pre as [|a pre IH]; [reflexivity|]. cbn [length app]. exact IH. Qed.
 
 (* ------------------------------------------------ lines *)
-Lemma lines_keep_concat (ls : list bytes) :
+Lemma lines_keep_concat (ls : list text) :
   (forall l, In l ls -> exists body, l = body ++ [10] /\ contains 10 body = false) ->
   lines_keep (concat ls) = ls.
 Proof.
@@ -166,6 +129,31 @@ Proof.
   destruct (H l (or_introl eq_refl)) as [body [-> Hb]].
   cbn [concat]. rewrite <- app_assoc. cbn [app]. rewrite lines_keep_line by exact Hb.
   rewrite IH; [reflexivity|]. intros l' Hl'. apply H. now right.
+Qed.
+
+(* a file made of '\n'-terminated lines is decoded line by line *)
+Lemma dec_concat_lines (ls : list bytes) :
+  (forall l, In l ls -> exists body, l = body ++ [10]) -> dec (concat ls) = concat (map dec ls).
+Proof.
+  induction ls as [|l ls IH]; intros H; [reflexivity|].
+  destruct (H l (or_introl eq_refl)) as [body ->].
+  cbn [concat map]. rewrite <- app_assoc. cbn [app].
+  rewrite dec_app_ascii by lia. rewrite IH by (intros x Hx; apply H; now right).
+  rewrite dec_app_ascii by lia. cbn [dec]. rewrite <- app_assoc. reflexivity.
+Qed.
+
+(* what a text-mode reader gets from such a file whose lines hold no '\n' / '\r' inside *)
+Lemma text_lines (ls : list bytes) (tls : list text) :
+  (forall l, In l ls -> exists body, l = body ++ [10]) ->
+  map dec ls = tls ->
+  (forall t, In t tls -> exists body, t = body ++ [10] /\ contains 10 body = false /\ contains 13 body = false) ->
+  lines_keep (text_of (concat ls)) = tls.
+Proof.
+  intros H1 H2 H3. unfold text_of. rewrite (dec_concat_lines ls H1), H2.
+  rewrite univ_nl_id.
+  - apply lines_keep_concat. intros t Ht. destruct (H3 t Ht) as [body [E [C _]]]. eauto.
+  - apply contains_concat. intros t Ht. destruct (H3 t Ht) as [body [-> [_ C]]].
+    rewrite contains_app, C. reflexivity.
 Qed.
 
 (* ------------------------------------------------ dicts *)
@@ -197,7 +185,7 @@ Proof.
   - cbn [app]. rewrite IH; [reflexivity|]. intros Hin. apply H. now right.
 Qed.
 
-Lemma fold_dset_nodup {V} (kvs : list (bytes * V)) : forall acc,
+Lemma fold_dset_nodup {V} (kvs : list (text * V)) : forall acc,
   NoDup (map fst kvs) -> (forall k, In k (map fst kvs) -> ~ In k (map fst acc)) ->
   fold_left (fun d kv => dset (fst kv) (snd kv) d) kvs acc = acc ++ kvs.
 Proof.
@@ -210,27 +198,31 @@ Proof.
   - subst k'. exact (Hnin Hk').
 Qed.
 
-Lemma fold_left_skip {A B} (skip : B -> bool) (g : A -> B -> A) l : forall acc,
-  fold_left (fun d e => if skip e then d else g d e) l acc
-  = fold_left g (filter (fun e => negb (skip e)) l) acc.
-Proof.
-  induction l as [|e l IH]; intros acc; [reflexivity|].
-  cbn [fold_left filter]. destruct (skip e); cbn [negb]; [apply IH|]. cbn [fold_left]. apply IH.
-Qed.
-
 Lemma filter_true {A} (p : A -> bool) l : (forall x, In x l -> p x = true) -> filter p l = l.
 Proof.
   induction l as [|a l IH]; intros H; [reflexivity|]. cbn [filter].
   rewrite (H a (or_introl eq_refl)). f_equal. apply IH. intros x Hx. apply H. now right.
 Qed.
 
+Lemma filter_ext_in' {A} (f g : A -> bool) l : (forall a, In a l -> f a = g a) -> filter f l = filter g l.
+Proof.
+  induction l as [|a l IH]; intros H; [reflexivity|]. cbn [filter].
+  rewrite (H a (or_introl eq_refl)), IH; [reflexivity|]. intros x Hx. apply H. now right.
+Qed.
+
+Lemma forallb_firstn {A} (P : A -> bool) n l : forallb P l = true -> forallb P (firstn n l) = true.
+Proof.
+  revert l. induction n as [|n IH]; intros l H; [reflexivity|]. destruct l as [|x l]; [reflexivity|].
+  cbn [forallb] in H. apply andb_true_iff in H as [H1 H2]. cbn [firstn forallb]. now rewrite H1, IH.
+Qed.
+
 (* ------------------------------------------------ the front end over well-shaped tuples *)
-Lemma front_per {A} (fields : list bytes) (nm : A -> bytes) (tup : A -> list Z) (nt : A -> ntuple) l :
+Lemma front_per {A} (fields : list bytes) (nm : A -> text) (tup : A -> list Z) (nt : A -> ntuple) l :
   (forall a, mk_nt fields (tup a) = Val (nt a)) ->
   front fields true (map (fun a => (nm a, tup a)) l) = Val (RDict (map (fun a => (nm a, nt a)) l)).
 Proof.
   intros H.
-  assert (G : mapM (fun kv : bytes * list Z => do t <- mk_nt fields (snd kv); Val (fst kv, t))
+  assert (G : mapM (fun kv : text * list Z => do t <- mk_nt fields (snd kv); Val (fst kv, t))
                    (map (fun a => (nm a, tup a)) l) = Val (map (fun a => (nm a, nt a)) l)).
   { induction l as [|a l IH]; [reflexivity|]. cbn [map mapM fst snd]. rewrite H. cbn [obind].
     now rewrite IH. }
@@ -239,7 +231,7 @@ Proof.
   destruct raw as [|r0 raw']; [discriminate|]. rewrite G. reflexivity.
 Qed.
 
-Lemma front_total {A} (fields : list bytes) (nm : A -> bytes) (tup : A -> list Z) (res : ntuple) l :
+Lemma front_total {A} (fields : list bytes) (nm : A -> text) (tup : A -> list Z) (res : ntuple) l :
   l <> [] -> mk_nt fields (col_sums (map tup l)) = Val res ->
   front fields false (map (fun a => (nm a, tup a)) l) = Val (RTuple res).
 Proof.
@@ -249,3 +241,31 @@ Proof.
   { unfold raw. rewrite map_map. apply map_ext. reflexivity. }
   rewrite E, H. reflexivity.
 Qed.
+
+(* ------------------------------------------------ decoding around a name *)
+Lemma dec_app_ascii_tail x t :
+  t <> [] -> forallb is_ascii t = true -> dec (x ++ t) = dec x ++ t.
+Proof.
+  intros Hne H. destruct t as [|c y]; [congruence|]. cbn [forallb] in H.
+  apply andb_true_iff in H as [Hc Hy]. rewrite dec_app_ascii by (unfold is_ascii in Hc; lia).
+  now rewrite (dec_ascii _ Hy).
+Qed.
+
+Lemma contains_sp_items b items :
+  (b =? 32) = false -> (forall t, In t (map snd items) -> contains b t = false) ->
+  contains b (sp_items items) = false.
+Proof.
+  intros Hb. induction items as [|p r IH]; intros H; [reflexivity|].
+  rewrite sp_items_cons, !contains_app. rewrite contains_repeat by exact Hb.
+  rewrite (H (snd p)) by (now left). cbn [orb]. apply IH. intros t Ht. apply H. now right.
+Qed.
+
+Lemma sp_items_app a b : sp_items (a ++ b) = sp_items a ++ sp_items b.
+Proof. unfold sp_items. now rewrite map_app, concat_app. Qed.
+
+Lemma forallb_pad P w t : P 32 = true -> forallb P t = true -> forallb P (pad w t) = true.
+Proof. intros H32 Ht. unfold pad. rewrite forallb_app, forallb_repeat by exact H32. now rewrite Ht. Qed.
+
+(* ------------------------------------------------ sums *)
+Lemma zsum_app a b : zsum (a ++ b) = zsum a + zsum b.
+Proof. induction a as [|x a IH]; [reflexivity|]. cbn [app zsum fold_right] in *. fold (zsum (a ++ b)). fold (zsum a). lia. Qed.
